@@ -220,6 +220,17 @@ func (g *Gen) Roots(bs []Blk) []cid.Cid {
 			out = append(out, g.Block().C)
 		}
 	}
+	if g.pick(6) == 0 {
+		// a root whose CID length sits on a CBOR head boundary of the header encoding (the byte
+		// string holding a CID of 23 / 255 bytes is 24 / 256 long): identity CIDs of chosen length
+		L := []int{22, 23, 24, 254, 255, 256}[g.pick(6)]
+		dl := L - 4
+		if dl >= 128 {
+			dl = L - 5
+		}
+		ih, _ := mh.Sum(g.bytes(dl), mh.IDENTITY, -1)
+		out = append(out, cid.NewCidV1(cid.Raw, ih))
+	}
 	return out
 }
 
